@@ -302,7 +302,7 @@ def h_blocks(ctx):
     secname = 'debug_loclists' if loc else 'debug_rnglists'
     di, streams = mk_dwarfinfo(ctx, little, addr, debug_info=cu, debug_abbrev=ab, debug_addr=addrsec, **{secname: sec})
     lists = di.location_lists() if loc else di.range_lists()
-    hdrs = list(lists.iter_CUs())
+    hdrs = ctx.drain(lists.iter_CUs())
     ctx.outcome('ok')
     label = 'blocks/%s' % ('loc' if loc else 'rng')
     ctx.check_eq(label + '/count', len(hdrs), len(blocks))
@@ -316,7 +316,7 @@ def h_blocks(ctx):
         else:
             ctx.check(label + '/no-offsets', not h.offsets)
         if not loc:
-            got = list(lists.iter_CU_range_lists_ex(h))
+            got = ctx.drain(lists.iter_CU_range_lists_ex(h))
             ctx.check_eq(label + '/lists-in-block/count', len(got), len(w['raws']))
             if len(got) == len(w['raws']):
                 for gl, raw, lo in zip(got, w['raws'], w['offs']):
@@ -363,7 +363,7 @@ def h_enum(ctx):
     cu, ab = _mk_cu(ctx, little, addr, ver, False, [], addr_base=abase, dies=dies)
     di, streams = mk_dwarfinfo(ctx, little, addr, debug_info=cu, debug_abbrev=ab, **dict(extra, **{secname: sec}))
     lists = di.location_lists() if loc else di.range_lists()
-    got = list(lists.iter_location_lists() if loc else lists.iter_range_lists())
+    got = ctx.drain(lists.iter_location_lists() if loc else lists.iter_range_lists())
     ctx.outcome('ok')
     want_idx = sorted(set(refs))
     label = 'enum/%s/v%d' % ('loc' if loc else 'rng', ver)
